@@ -2,15 +2,27 @@
 (* Model-checking instances of ReasmImpl.tla: configuration grids (cfg files cannot hold records). *)
 EXTENDS ReasmImpl
 
+CONSTANT Seed      \* rotates the quick grid (VERIF_SEED)
+
 \* initial sequence numbers: 0 (far from the wrap) and every position that puts the wrap inside the stream
 \* (M - 1: the SYN itself is the last number before the wrap; M - 1 - k: stream unit k starts at sequence 0)
 WrapIsns == {M - 1 - k : k \in 0..(L + 1)}
+IsnSeq == <<0>> \o [k \in 1..(L + 2) |-> M - k]
 
+\* quick grid: every (limit, KeepFrom policy) pair once; forced start, ISN and the ReassemblyComplete answer
+\* rotate with the seed
+Combos == << <<0, -1>>, <<1, -1>>, <<2, -1>>, <<0, 0>>, <<1, 0>>, <<2, 0>>, <<0, 2>>, <<1, 2>>, <<2, 2>>,
+             <<0, 3>>, <<1, 3>>, <<2, 3>> >>
+MC_CfgsQuick == {[limit |-> Combos[i][1], keep |-> Combos[i][2], force |-> ((i + Seed) % 2 = 0),
+                  isn |-> IsnSeq[((i + Seed) % Len(IsnSeq)) + 1], remove |-> ((i + Seed) % 4 # 0)] : i \in 1..Len(Combos)}
+MC_CfgsSmall == {c \in MC_CfgsQuick : c.keep \in {-1, 2} /\ c.limit \in {0, 1}}
+\* thorough grid: the full product with ReassemblyComplete answering true, plus the quick grid answering false
+MC_CfgsThorough == [limit : {0, 1, 2}, keep : {-1, 0, 2, 3}, force : BOOLEAN, isn : {0} \cup WrapIsns, remove : {TRUE}]
+                   \cup {[c EXCEPT !.remove = FALSE] : c \in MC_CfgsQuick}
 MC_CfgsSmoke == [limit : {0, 1}, keep : {-1, 2}, force : {FALSE, TRUE}, isn : {M - 2}, remove : {TRUE}]
-MC_CfgsQuick == [limit : {0, 1, 2}, keep : {-1, 0, 2}, force : BOOLEAN, isn : {0, M - 1, M - 2, M - 3}, remove : {TRUE}]
-                \cup [limit : {1}, keep : {3}, force : {FALSE}, isn : {M - 4}, remove : {FALSE}]
-MC_CfgsThorough == [limit : {0, 1, 2}, keep : {-1, 0, 2, 3}, force : BOOLEAN, isn : {0} \cup WrapIsns, remove : BOOLEAN]
-\* configurations for the defect-finding runs (pre-fix shapes switched on)
+
+\* configurations for the defect-finding runs (pre-fix shapes of the code switched on through constants)
 MC_CfgsWrap == [limit : {0}, keep : {-1}, force : BOOLEAN, isn : WrapIsns, remove : {TRUE}]
 MC_CfgsKeep == [limit : {0, 2}, keep : {0, 2}, force : BOOLEAN, isn : {0}, remove : {TRUE}]
+MC_CfgsFin == [limit : {1, 2}, keep : {-1}, force : BOOLEAN, isn : {0}, remove : {TRUE}]
 =============================================================================
